@@ -136,4 +136,142 @@ theorem decimal_consts :
 theorem dom_is_min_max (d : Dec) :
     (Dec.MIN.coeff ≤ d.coeff ∧ d.coeff ≤ Dec.MAX.coeff ∧ d.nfrac ≤ Dec.DELTA.nfrac) ↔ Dom d := Kernels.dom_is_min_max d
 
+/-! ### algebraic laws
+Model-level corollaries: equalities of `Outcome` values (a composition `f x >>= g` panics when either step does). -/
+
+private theorem dom_neg {x : Dec} (hx : Dom x) : Dom ⟨-x.coeff, x.nfrac⟩ := by
+  obtain ⟨h1, h2, h3⟩ := hx
+  refine ⟨?_, ?_, h3⟩ <;> simp only <;> unfold I128_MIN I128_MAX at * <;> omega
+
+/-- `-(-x) = x` on the domain (no negation overflows there) -/
+theorem neg_involutive (prof : Profile) (x : Dec) (hx : Dom x) : (neg prof x >>= neg prof) = .ok x := by
+  have hn := dom_neg hx
+  rw [neg_spec prof x hx, Outcome.bind_ok, neg_spec prof _ hn]
+  simp
+
+/-- `abs` is idempotent -/
+theorem abs_idempotent (prof : Profile) (x : Dec) (hx : Dom x) : (abs prof x >>= abs prof) = abs prof x := by
+  have hn : Dom ⟨x.coeff.natAbs, x.nfrac⟩ := by
+    obtain ⟨h1, h2, h3⟩ := hx
+    refine ⟨?_, ?_, h3⟩ <;> simp only <;> unfold I128_MIN I128_MAX at * <;> omega
+  rw [abs_spec prof x hx, Outcome.bind_ok, abs_spec prof _ hn]
+  simp
+
+/-- `|-x| = |x|` -/
+theorem abs_neg (prof : Profile) (x : Dec) (hx : Dom x) : (neg prof x >>= abs prof) = abs prof x := by
+  have hn := dom_neg hx
+  rw [neg_spec prof x hx, Outcome.bind_ok, abs_spec prof _ hn, abs_spec prof x hx]
+  simp
+
+/-- `floor`, `ceil` and `trunc` are idempotent — for EVERY operand: a result has no fractional digits and is returned as it is -/
+theorem floor_idempotent (prof : Profile) (x : Dec) : (floor prof x >>= floor prof) = floor prof x := by
+  obtain ⟨c, n⟩ := x
+  cases n with
+  | zero => rfl
+  | succ n =>
+    unfold floor
+    simp only
+    cases tenPow (n + 1) with
+    | panic k => rfl
+    | ok t =>
+      simp only [Outcome.bind_ok]
+      generalize divFloorI128 prof c t = r
+      cases r <;> rfl
+
+theorem ceil_idempotent (prof : Profile) (x : Dec) : (ceil prof x >>= ceil prof) = ceil prof x := by
+  obtain ⟨c, n⟩ := x
+  cases n with
+  | zero => rfl
+  | succ n =>
+    unfold ceil
+    simp only
+    cases tenPow (n + 1) with
+    | panic k => rfl
+    | ok t =>
+      simp only [Outcome.bind_ok]
+      generalize divCeilI128 prof c t = r
+      cases r <;> rfl
+
+theorem trunc_idempotent (x : Dec) : (trunc x >>= trunc) = trunc x := by
+  obtain ⟨c, n⟩ := x
+  cases n with
+  | zero => rfl
+  | succ n =>
+    unfold trunc
+    simp only
+    cases tenPow (n + 1) with
+    | panic k => rfl
+    | ok t =>
+      simp only [Outcome.bind_ok]
+      generalize divI128 c t = r
+      cases r <;> rfl
+
+/-- the floor quotient of a domain coefficient by a power of ten is a domain coefficient -/
+private theorem dom_floor {c : Int} (n : Nat) (h1 : I128_MIN < c) (h2 : c ≤ I128_MAX) :
+    Dom ⟨c / (10 : Int) ^ n, 0⟩ := by
+  have hf : fitsI128 c = true := by rw [fitsI128_iff]; omega
+  have hb := ediv_fits_pos hf (pow10_pos n)
+  refine ⟨?_, hb.2, by simp⟩
+  simp only
+  by_cases hc : 0 ≤ c
+  · have := Int.ediv_nonneg hc (Int.le_of_lt (pow10_pos n)); unfold I128_MIN; omega
+  · have := ediv_ge_of_neg (x := c) (by omega) (pow10_pos n); omega
+
+/-- `ceil x = -floor(-x)`, as outcomes -/
+theorem ceil_eq_neg_floor_neg (prof : Profile) (x : Dec) (hx : Dom x) :
+    ceil prof x = (neg prof x >>= floor prof >>= neg prof) := by
+  have hn := dom_neg hx
+  have hfl : Dom ⟨-x.coeff / (10 : Int) ^ x.nfrac, 0⟩ := dom_floor x.nfrac hn.1 hn.2.1
+  rw [ceil_spec prof x hx, neg_spec prof x hx, Outcome.bind_ok, floor_spec prof _ hn, Outcome.bind_ok]
+  simp only [Spec.ceil, Spec.floor]
+  rw [neg_spec prof _ hfl]
+
+/-- `floor x = -ceil(-x)`, as outcomes -/
+theorem floor_eq_neg_ceil_neg (prof : Profile) (x : Dec) (hx : Dom x) :
+    floor prof x = (neg prof x >>= ceil prof >>= neg prof) := by
+  have hn := dom_neg hx
+  have hfl := dom_floor x.nfrac hx.1 hx.2.1
+  have hc : Dom ⟨-(x.coeff / (10 : Int) ^ x.nfrac), 0⟩ := dom_neg hfl
+  rw [floor_spec prof x hx, neg_spec prof x hx, Outcome.bind_ok, ceil_spec prof _ hn, Outcome.bind_ok]
+  simp only [Spec.ceil, Spec.floor, Int.neg_neg]
+  rw [neg_spec prof _ hc]
+  simp
+
+/-- `trunc x + fract x = x`: the sum (model of `+`, C01) is exact, never overflows and has `x`'s representation -/
+theorem trunc_add_fract (x : Dec) (hx : Dom x) :
+    (trunc x >>= fun t => fract x >>= fun f => addSub false t f) = .ok x := by
+  rw [trunc_spec x hx, fract_spec x hx]
+  obtain ⟨c, n⟩ := x
+  have hf := hx.fits
+  obtain ⟨h1, h2, h3⟩ := hx
+  simp only at h1 h2 h3 hf
+  simp only [Outcome.bind_ok, Spec.trunc, Spec.fract]
+  by_cases hn : n = 0
+  · subst hn
+    simp [addSub, checkedI128_some hf, coeffOrPanic]
+  · have hc : compare 0 n = Ordering.lt := Nat.compare_eq_lt.mpr (by omega)
+    obtain ⟨-, -, -, -, e1, e2, -⟩ := value_properties c n
+    simp only [Spec.trunc] at e1 e2
+    have hq : fitsI128 (c.tdiv ((10 : Int) ^ n) * (10 : Int) ^ n) = true := by
+      have : (c.tdiv ((10 : Int) ^ n) * (10 : Int) ^ n).natAbs ≤ c.natAbs := by
+        rw [Int.natAbs_mul, Int.natAbs_pow]; exact e2
+      rw [fitsI128_iff]; unfold I128_MIN I128_MAX at *; omega
+    simp only [hn, if_false, addSub, hc, Nat.sub_zero, Bool.false_eq_true]
+    rw [mulPowTen_eq _ n (by omega), checkedI128_some hq]
+    simp only [Outcome.ofOption_some, Outcome.bind_ok, e1, checkedI128_some hf, coeffOrPanic, Outcome.pure_eq]
+
+example : (neg Profile.dev ⟨-25, 1⟩ >>= neg Profile.dev) = .ok ⟨-25, 1⟩ ∧
+    (abs Profile.dev ⟨-25, 1⟩ >>= abs Profile.dev) = .ok ⟨25, 1⟩ ∧ (neg Profile.dev ⟨25, 1⟩ >>= abs Profile.dev) = .ok ⟨25, 1⟩ := by
+  decide
+-- outside the domain the involution fails: `-i128::MIN` panics with overflow checks and wraps to itself without
+example : (neg Profile.dev ⟨I128_MIN, 0⟩ >>= neg Profile.dev) = .panic .arith ∧
+    (neg Profile.release ⟨I128_MIN, 0⟩ >>= neg Profile.release) = .ok ⟨I128_MIN, 0⟩ := by decide
+example : (floor Profile.dev ⟨-25, 1⟩ >>= floor Profile.dev) = .ok ⟨-3, 0⟩ ∧ (ceil Profile.dev ⟨-25, 1⟩ >>= ceil Profile.dev) = .ok ⟨-2, 0⟩ ∧
+    (trunc ⟨-25, 1⟩ >>= trunc) = .ok ⟨-2, 0⟩ ∧ (floor Profile.dev ⟨1, 39⟩ >>= floor Profile.dev) = .panic .index := by decide
+example : ceil Profile.release ⟨2501, 3⟩ = .ok ⟨3, 0⟩ ∧
+    (neg Profile.release ⟨2501, 3⟩ >>= floor Profile.release >>= neg Profile.release) = .ok ⟨3, 0⟩ ∧
+    floor Profile.release ⟨-2501, 3⟩ = .ok ⟨-3, 0⟩ ∧
+    (neg Profile.release ⟨-2501, 3⟩ >>= ceil Profile.release >>= neg Profile.release) = .ok ⟨-3, 0⟩ := by decide
+example : trunc ⟨-2575, 2⟩ = .ok ⟨-25, 0⟩ ∧ fract ⟨-2575, 2⟩ = .ok ⟨-75, 2⟩ ∧ addSub false ⟨-25, 0⟩ ⟨-75, 2⟩ = .ok ⟨-2575, 2⟩ := by decide
+
 end Fpdec.Props.C15
